@@ -1,8 +1,14 @@
 /-
 C15 — CS101 frame count bit: alternation, retransmission, duplicate suppression.
 Model: Iec.Link101 (tied to link_layer.c by checks/link_common.py).
+
+Step theorems (one frame, any state) for the unbalanced slave, the balanced station and the unbalanced master,
+and, for the unbalanced slave, history theorems over every stream of requests with every pattern of repetitions
+(`secU_stream_exactly_once`, `secU_repetitions_invisible`, `secU_repeated_response_identical`): the station refines
+the specification `Iec.Link101.View.stream` (`Lemmas/Link101Hist.lean`, `runStream_refines`).
 -/
 import Iec.Model.Link101
+import Iec.Lemmas.Link101Hist
 namespace Iec.Props.C15
 open Iec.Link101
 
@@ -84,7 +90,7 @@ theorem secU_repeated_poll (s : SecU) (cls1 fcb : Bool) (h : fcb ≠ s.expectedF
     (s.poll cls1 fcb true).1.expectedFcb = s.expectedFcb ∧
     (s.ll.userData ≠ [] → (s.poll cls1 fcb true).2 =
       (s.ll.sendVar 8 s.ll.address false false (!s.c1.isEmpty) false s.ll.userData).2) := by
-  unfold SecU.poll
+  unfold SecU.poll SecU.answer
   simp only [if_true, checkFCB_spec, if_neg h, Bool.not_false, if_true]
   by_cases hu : s.ll.userData.length > 0
   · simp [hu]
@@ -257,6 +263,61 @@ theorem bal_reset_restarts_fcb (s : Bal) (now : Nat) (h1 : s.pstate = 1) :
     show ¬ ((11 : Nat) = 8 ∨ (11 : Nat) = 9) by decide]
   unfold Bal.setState
   simp; split <;> simp
+
+/-! ### histories: every stream of requests, every pattern of repetitions (unbalanced slave) -/
+
+/-- **each confirmed user-data frame is delivered to the application exactly once, in order, however often it
+(or any poll in between) is retransmitted**: for every stream of requests (user data and class-1/2 polls, each
+with the frame-count-valid bit) sent by a primary in step with the station, each repeated any number of times,
+what `HandleReceivedData` sees is the user data of the frames, once each, in the order sent. -/
+theorem secU_stream_exactly_once (s : SecU) (rs : List (Req × Nat)) (hq : s.view.QueuesOk) :
+    rxOf (s.runStream rs).2 = (rs.map fun x => x.1.payload).flatten := by
+  rw [(runStream_refines rs s hq).2.2, stream_rx]
+
+/-- **repetitions are invisible**: the application queues, the expected frame count bit and the stored response
+at the end are those of the same stream without any repetition — in particular a repeated poll takes nothing
+more from the class-1/2 queues. -/
+theorem secU_repetitions_invisible (s : SecU) (rs : List (Req × Nat)) (hq : s.view.QueuesOk) :
+    (s.runStream rs).1.view = (s.runStream (rs.map fun x => (x.1, 0))).1.view := by
+  rw [(runStream_refines rs s hq).1, (runStream_refines _ s hq).1, stream_view_indep]
+
+/-- **a repeated request is answered by repeating the previous response**: the octets written are those of the
+specification, which gives the response to each accepted request `n + 1` times over (`stream_tx_cons`). -/
+theorem secU_repeated_response_identical (s : SecU) (rs : List (Req × Nat)) (hq : s.view.QueuesOk) :
+    txB (s.runStream rs).2 = (s.view.stream rs).2.1 := (runStream_refines rs s hq).2.1
+
+theorem stream_tx_cons (v : View) (r : Req) (n : Nat) (rest : List (Req × Nat)) :
+    (v.stream ((r, n) :: rest)).2.1 =
+      (List.replicate (n + 1) ((v.accept r).resp r)).flatten ++ ((v.accept r).stream rest).2.1 := rfl
+
+theorem stream_fcb (rs : List (Req × Nat)) : ∀ v : View,
+    (v.stream rs).1.expectedFcb = (if rs.length % 2 = 0 then v.expectedFcb else !v.expectedFcb) := by
+  induction rs with
+  | nil => intro v; rfl
+  | cons x rest ih =>
+    intro v
+    obtain ⟨r, n⟩ := x
+    show ((v.accept r).stream rest).1.expectedFcb = _
+    rw [ih, accept_toggles]
+    simp only [List.length_cons]
+    by_cases h : rest.length % 2 = 0
+    · have : ¬ (rest.length + 1) % 2 = 0 := by omega
+      simp [h, this]
+    · have : (rest.length + 1) % 2 = 0 := by omega
+      simp [h, this]
+
+/-- the expected bit after a stream: toggled once per request, whatever the repetitions -/
+theorem secU_stream_fcb (s : SecU) (rs : List (Req × Nat)) (hq : s.view.QueuesOk) :
+    (s.runStream rs).1.expectedFcb = (if rs.length % 2 = 0 then s.expectedFcb else !s.expectedFcb) := by
+  have : (s.runStream rs).1.expectedFcb = (s.runStream rs).1.view.expectedFcb := rfl
+  rw [this, (runStream_refines rs s hq).1, stream_fcb]; rfl
+
+def demoSec : SecU := { ll := { p := ⟨1, 200, 1000, false, 500, by omega⟩, address := 5 }, c2 := [[9, 9]] }
+/-- non-vacuity (a test): data, a poll repeated twice, data repeated once — two deliveries, one queue entry taken -/
+example : rxOf (demoSec.runStream
+    [(.data [0, 0, 0, 0, 0, 0, 1, 2] 6 2, 0), (.poll [] false, 2), (.data [0, 0, 0, 0, 0, 0, 3] 6 1, 1)]).2 = [[1, 2], [3]] := by decide
+example : (demoSec.runStream [(.poll [] false, 2)]).1.c2 = [] := by decide
+example : demoSec.view.QueuesOk := ⟨by decide, by decide⟩
 
 end Iec.Props.C15
 
